@@ -10,7 +10,7 @@ from fv.extract import Unit, R, V
 from fv.runner import Group
 from spec.sweeps import ACC_ANCHOR, ACC_LOOP_HEAD, IMPL_H
 
-N_B = 4
+N_B = 3
 
 DEFS = r"""
 #define m_receivers(i, j) m_receivers_[FSL_IDX2(i, j, gsize, REC_W)]
@@ -19,9 +19,12 @@ DEFS = r"""
 #define m_dfs_indices(i) m_dfs_indices_[FSL_IDX1(i, gsize)]
 #define area(i) area_[FSL_IDX1(i, gsize)]
 #define src(i) src_[FSL_IDX1(i, gsize)]
+/* other members of the implementation object in scope (today's body does not read them) */
+#define is_base_level(i) (base_level_[FSL_IDX1(i, gsize)] != 0)
+#define is_masked(i) (mask_init_ && mask_[FSL_IDX1(i, gsize)] != 0)
 """
 PARAMS = ("size_t gsize, const size_t *m_dfs_indices_, const size_t *m_receivers_, const size_t *m_receivers_count_, "
-          "const double *m_receivers_weight_, const double *area_, const double *src_, double *acc")
+          "const double *m_receivers_weight_, const double *area_, const double *src_, double *acc, const _Bool *base_level_, const _Bool *mask_, _Bool mask_init_")
 
 accumulate_b = Unit(
     name="accumulate_b", file=IMPL_H, anchor=ACC_ANCHOR, sig="void accumulate_b(%s)" % PARAMS, defs=DEFS,
@@ -29,10 +32,12 @@ accumulate_b = Unit(
         R(r"auto src_arr = xt::broadcast\(std::forward<T>\(src\), m_grid\.shape\(\)\);", "/* glue: src is modelled as the array src[n] */", 1),
         # xtensor `a.fill(v)`: element-wise (assumed xtensor semantics)
         R(r"acc\.fill\(0\);", "for (size_t z_ = 0; z_ < gsize; ++z_) acc[z_] = 0;", None),
-        R(r"auto nodes_indices = nodes_indices_bottomup\(\);", "", 1),
-        # reverse iteration over the bottom-up order: turn dfs_k reads position size-1-dfs_k
-        R(ACC_LOOP_HEAD, "for (size_t dfs_k = 0; dfs_k < gsize; ++dfs_k)", 1),
-        R(r"const auto (\w+) = \*\w+;", r"const size_t \1 = m_dfs_indices(gsize - 1 - dfs_k);", 1),
+        R(r"auto nodes_indices = nodes_indices_bottomup\(\);", "", None),
+        # reverse iteration over the bottom-up order: turn dfs_k reads position size-1-dfs_k (any count: a body that sweeps with its own index loop over
+        # m_dfs_indices is taken as written)
+        R(ACC_LOOP_HEAD, "for (size_t dfs_k = 0; dfs_k < gsize; ++dfs_k)", None),
+        R(r"const auto (\w+) = \*\w+;", r"const size_t \1 = m_dfs_indices(gsize - 1 - dfs_k);", None),
+        V(r"const auto (\w+) = m_dfs_indices\(", r"const size_t \1 = m_dfs_indices("),
         V(r"const auto (\w+) = acc\.flat\(", r"const double \1 = acc.flat("),
         V(r"m_grid\.nodes_areas\(", "area("),
         V(r"\bsrc_arr\(", "src("),
@@ -46,20 +51,21 @@ HARNESS = r"""
 size_t nondet_size_t(void); _Bool nondet_bool(void); unsigned char nondet_uchar(void);
 /* ALL receiver tables on gsize <= N_B nodes that satisfy the order contract (C06): the order is a permutation (ghost inverse pos), a receiver
  * other than the node itself comes earlier in the bottom-up order; a node with itself as receiver has exactly that one receiver (outlets, pits,
- * masked nodes: C04 / C05); weights are k/4 >= 0 and sum to one per node (C05); areas and sources are integers in [0, 3] (sources may be 0) */
+ * masked nodes: C04 / C05); weights are k/WDIV >= 0 and sum to one per node (C05); areas and sources are integers in [0, VMAX] (sources may be 0) */
 void h_accumulate_b(void)
 {
     size_t gsize = nondet_size_t();
     __CPROVER_assume(1 <= gsize && gsize <= N_B);
     size_t dfs[N_B], pos[N_B], rec[N_B * REC_W], rcnt[N_B];
     double wgt[N_B * REC_W], area[N_B], src[N_B], acc[N_B];
+    _Bool bl[N_B], msk[N_B], msk_init = nondet_bool();
     for (int p = 0; p < N_B; ++p) { dfs[p] = nondet_size_t(); pos[p] = nondet_size_t(); }
     for (int p = 0; p < N_B; ++p) if ((size_t) p < gsize) { __CPROVER_assume(dfs[p] < gsize); __CPROVER_assume(pos[dfs[p]] == (size_t) p); }
     for (int i = 0; i < N_B; ++i) if ((size_t) i < gsize) __CPROVER_assume(pos[i] < gsize && dfs[pos[i]] == (size_t) i);
     for (int i = 0; i < N_B; ++i)
     {
         unsigned char a = nondet_uchar(), s = nondet_uchar();
-        __CPROVER_assume(a <= 3 && s <= 3);
+        __CPROVER_assume(a <= VMAX && s <= VMAX);
         area[i] = a; src[i] = s;
         rcnt[i] = nondet_size_t();
         __CPROVER_assume(1 <= rcnt[i] && rcnt[i] <= REC_W);
@@ -68,8 +74,8 @@ void h_accumulate_b(void)
         {
             rec[i * REC_W + k] = nondet_size_t();
             unsigned char q = nondet_uchar();
-            __CPROVER_assume(q <= 4);
-            wgt[i * REC_W + k] = q * 0.25;
+            __CPROVER_assume(q <= WDIV);
+            wgt[i * REC_W + k] = q * (1.0 / WDIV);
             if ((size_t) i < gsize && (size_t) k < rcnt[i])
             {
                 size_t r = rec[i * REC_W + k];
@@ -78,10 +84,13 @@ void h_accumulate_b(void)
                 quarters += q;
             }
         }
-        if ((size_t) i < gsize) __CPROVER_assume(quarters == 4);
+        if ((size_t) i < gsize) __CPROVER_assume(quarters == WDIV);
+        /* base levels and masked nodes are their own single receiver (C04 / C05); pits are own receivers that are neither */
+        bl[i] = nondet_bool(); msk[i] = nondet_bool();
+        if ((size_t) i < gsize && (bl[i] || (msk_init && msk[i]))) __CPROVER_assume(rec[i * REC_W] == (size_t) i);
     }
     /* arbitrary previous contents of the output array (an in-place call on an array that already holds values) */
-    accumulate_b(gsize, dfs, rec, rcnt, wgt, area, src, acc);
+    accumulate_b(gsize, dfs, rec, rcnt, wgt, area, src, acc, bl, msk, msk_init);
     /* C03, from the statement: the accumulated value at a node equals the source times the node's cell area plus the accumulated values of
      * all its donors weighted by their flow-partition fractions */
     double total_src = 0, total_out = 0;
@@ -103,21 +112,22 @@ void h_accumulate_b(void)
 """
 
 
-def grp(rec_w, tier="quick"):
+def grp(rec_w, tier="quick", wdiv=4, vmax=3):
     loops = N_B + 2
     return Group(
         name="accum.bounded.w%d" % rec_w, units=[accumulate_b], harness=HARNESS, entry="h_accumulate_b",
-        defines=["N_B=%d" % N_B, "REC_W=%d" % rec_w], unwind=loops, backend="cadical", timeout=1200, min_obligations=10, tier=tier, object_bits=10,
+        defines=["N_B=%d" % N_B, "REC_W=%d" % rec_w, "WDIV=%d" % wdiv, "VMAX=%d" % vmax], unwind=loops, backend="cadical", timeout=1200, min_obligations=10, tier=tier, object_bits=10,
         no_checks=["--conversion-check"],
-        bounded="all receiver tables with <= %d nodes and <= %d receivers per node satisfying the order contract, integer areas / sources in [0,3], "
-                "weights in quarters summing to one (exact arithmetic), arbitrary previous contents of acc (complete unwinding %d)" % (N_B, rec_w, loops),
+        bounded="all receiver tables with <= %d nodes and <= %d receivers per node satisfying the order contract, integer areas / sources in [0,%d], "
+                "weights in multiples of 1/%d summing to one (exact arithmetic), arbitrary previous contents of acc, arbitrary mask / base-level flags on "
+                "own-receiver nodes (complete unwinding %d)" % (N_B, rec_w, vmax, wdiv, loops),
         replay="replay/routing.cpp",
         clause="flow_graph_impl::accumulate, whole extracted function with IEEE operations: every accumulated value equals area*source plus the "
                "weighted accumulated values of its donors (the recurrence of the property), is not below its local contribution, and the sum over "
                "terminal nodes equals the integrated source (conservation); receiver table width %d" % rec_w)
 
 
-GROUPS = {"C03": [grp(1), grp(2)]}
+GROUPS = {"C03": [grp(1), grp(2, "thorough", wdiv=2, vmax=2)]}
 PROPS = {
     "C03": dict(
         level="other",
